@@ -99,11 +99,20 @@ def candidates(per_file, seed):
 
 
 def sh(cmd, timeout=None, env=None, cwd=None):
+    # own process group, so that a timeout kills the whole tree (a mutant that loops for ever inside
+    # a check must not survive as an orphan)
+    import signal
+    p = subprocess.Popen(cmd, shell=True, stdout=subprocess.PIPE, stderr=subprocess.PIPE, text=True, env=env, cwd=cwd, start_new_session=True)
     try:
-        r = subprocess.run(cmd, shell=True, capture_output=True, text=True, timeout=timeout, env=env, cwd=cwd)
-        return r.returncode, r.stdout, r.stderr
-    except subprocess.TimeoutExpired as e:
-        return 124, (e.stdout or b"").decode() if isinstance(e.stdout, bytes) else (e.stdout or ""), "TIMEOUT"
+        o, e = p.communicate(timeout=timeout)
+        return p.returncode, o, e
+    except subprocess.TimeoutExpired:
+        try:
+            os.killpg(p.pid, signal.SIGKILL)
+        except ProcessLookupError:
+            pass
+        o, e = p.communicate()
+        return 124, o or "", "TIMEOUT"
 
 
 def setup_worker(k):
